@@ -9,7 +9,8 @@ import (
 )
 
 type tables struct {
-	groups []*group
+	groups  []*group
+	sgroups []*sgroup // loop sites (OpSeq.tla)
 }
 
 func kname(k mkind) string {
